@@ -182,12 +182,18 @@ def value_change(a, b):
     if b == split:
         return "astral-split-into-surrogates"
 
-    def core(x):
-        return "".join(ch for ch in x if not (ch in " \t\n" or _is_py_blank_only(ch)))
+    import collections
 
-    if core(a) == core(b):
-        return "blank-characters-changed"
-    return "other"
+    ca, cb = collections.Counter(a), collections.Counter(b)
+    lost = sorted(set((ca - cb).keys()))
+    gained = sorted(set((cb - ca).keys()))
+
+    def cps(chars):
+        return "+".join("U+%04X" % ord(c) for c in chars[:3]) + ("+more" if len(chars) > 3 else "")
+
+    if not lost and not gained:
+        return "reordered"
+    return "lost:%s;gained:%s" % (cps(lost) or "-", cps(gained) or "-")
 
 
 def _surrogates(ch):
